@@ -3,17 +3,24 @@ pub fn reduce_with_hint(self, hint: UBig) -> Repr
 /*@ requires self.denominator.v() > 0,
     ensures ret.numerator.v() * self.denominator.v() == self.numerator.v() * ret.denominator.v(),
         ret.denominator.v() >= 1,
-        self.numerator.v() == 0 ==> ret.denominator.v() == 1, @*/
+        self.numerator.v() == 0 ==> ret.numerator.v() == 0 && ret.denominator.v() == 1,
+        self.numerator.v() != 0 ==> exists|g1: int, h: int| #[trigger] hint_red(hint.v(), self.numerator.v(),
+            self.denominator.v(), g1, h, ret.numerator.v(), ret.denominator.v()), @*/
 {
     if self.numerator.is_zero() {
         return Repr::zero();
     }
 
+    /*@ let ghost n0 = self.numerator.v(); let ghost d0 = self.denominator.v(); @*/
     let g = hint.gcd(&self.numerator).gcd(&self.denominator);
     /*@ proof { lemma_hint_gcd_divides(hint.v(), self.numerator.v(), self.denominator.v(), g.v()); } @*/
     Repr {
         numerator: self.numerator / &g,
         denominator: self.denominator / g,
     }
-    /*@ proof { lemma_cancel(self.numerator.v(), self.denominator.v(), g.v(), ret.numerator.v(), ret.denominator.v()); } @*/
+    /*@ proof {
+        lemma_cancel(n0, d0, g.v(), ret.numerator.v(), ret.denominator.v());
+        let g1 = choose|g1: int| is_gcd(g1, rabs(hint.v()), rabs(n0)) && #[trigger] is_gcd(g.v(), rabs(g1), rabs(d0));
+        assert(hint_red(hint.v(), n0, d0, g1, g.v(), ret.numerator.v(), ret.denominator.v()));
+    } @*/
 }
